@@ -454,7 +454,7 @@ def length_like(f, e):
     for a in la[0]:
         ok = False
         if any(s_ in a for s_ in ('::len(', 'Bitstr::start(', 'Bitstr::end(', 'code_origin(', 'upper_bound_index(', 'data_depth(', 'len_utf8(', 'State::ip(',
-                                  '::size(', 'Bitstr::len(')):
+                                  '::size(', 'Bitstr::len(', 'enumerate::Enumerate<I> as')):     # an enumerate() index counts elements held in memory
             ok = True
         if re.search(r'\.(%s)\b' % '|'.join(LEN_LIKE_FIELDS), a):
             ok = True
